@@ -143,22 +143,36 @@ func (c *Real64) POW(a, k *Real64) *Real64 {
   v0 := math.Pow(x, y)
   if k.GetOrder() >= 1 {
     f1 := func() (float64, float64) {
-      f10 := math.Pow(x, y-1)*y
+      f10 := 0.0
+      if y != 0.0 {
+        f10 = math.Pow(x, y-1)*y
+      }
       f01 := math.Pow(x, y-0)*math.Log(x)
       return f10, f01
     }
     f2 := func() (float64, float64, float64) {
       f11 := math.Pow(x, y-1)*(1 + y*math.Log(x))
-      f20 := math.Pow(x, y-2)*(y - 1)*y
+      f20 := 0.0
+      if y != 0.0 && y != 1.0 {
+        f20 = math.Pow(x, y-2)*(y - 1)*y
+      }
       f02 := math.Pow(x, y-0)*math.Log(x)*math.Log(x)
       return f11, f20, f02
     }
     return c.realDyadicLazy(a, k, v0, f1, f2)
   } else {
+    // the coefficients vanish identically for y = 0 (and y = 1), also at
+    // x = 0 where Pow(x, y-1) or Pow(x, y-2) is infinite
     f1 := func() (float64) {
+      if y == 0.0 {
+        return 0.0
+      }
       return math.Pow(x, y-1)*y
     }
     f2 := func() (float64) {
+      if y == 0.0 || y == 1.0 {
+        return 0.0
+      }
       return math.Pow(x, y-2)*(y - 1)*y
     }
     return c.realMonadicLazy(a, v0, f1, f2)
